@@ -41,7 +41,7 @@ theorem gcdLoop_nat : ∀ (fuel a b : Nat), a + b < fuel →
       refine ⟨a, b, rfl, ?_, rfl⟩
       omega
 
-theorem GCD_nat (a b : Nat) (ha : 0 < a) (hb : 0 < b) : GCD (a : Int) (b : Int) = some ((Nat.gcd a b : Nat) : Int) := by
+theorem GCD_nat (a b : Nat) (ha : 0 < a) (_hb : 0 < b) : GCD (a : Int) (b : Int) = some ((Nat.gcd a b : Nat) : Int) := by
   unfold GCD
   obtain ⟨x, y, h1, h2, h3⟩ := gcdLoop_nat ((a : Int).toNat + (b : Int).toNat + 1) a b (by simp)
   rw [h1]
